@@ -19,12 +19,21 @@ type traceItem struct {
 // rejected it is bisected so that the offending trace is identified; reject is called for each
 // rejected trace with TLC's result. A TLC crash or timeout is an infrastructure problem (exit 2).
 func validateTraces(c *Ctx, module, cfg string, items []traceItem, maxEvents int, dfs bool, reject func(it traceItem, res *TLCResult)) (events int) {
+	return validateTracesF(c, module, cfg, nil, items, maxEvents, dfs, reject)
+}
+
+// validateTracesF is validateTraces with extra files (e.g. a generated MC module) next to the spec.
+func validateTracesF(c *Ctx, module, cfg string, extra map[string][]byte, items []traceItem, maxEvents int, dfs bool, reject func(it traceItem, res *TLCResult)) (events int) {
 	run := func(its []traceItem) (*TLCResult, bool) {
 		var buf bytes.Buffer
 		for _, it := range its {
 			buf.Write(it.Trace)
 		}
-		res, err := RunTLC(TLCRun{Module: module, Cfg: cfg, Workers: 1, DFS: dfs, Timeout: 30 * time.Minute, Files: map[string][]byte{"trace.ndjson": buf.Bytes()}})
+		files := map[string][]byte{"trace.ndjson": buf.Bytes()}
+		for k, v := range extra {
+			files[k] = v
+		}
+		res, err := RunTLC(TLCRun{Module: module, Cfg: cfg, Workers: 1, DFS: dfs, Timeout: 30 * time.Minute, Files: files})
 		if err != nil || res == nil || res.TimedOut || (res.ExitCode != 0 && res.Violated == "" && !res.Postcond) {
 			c.Infra("TLC trace validation (" + module + ") did not run: " + errText(res, err))
 			return res, false
